@@ -484,3 +484,13 @@ func (e *Engine) specUsesReal(name string) bool {
 	e.realSpecMemo[name] = res
 	return res
 }
+
+func (e *Engine) funcObjByKey(key string) *types.Func {
+	fd := e.decls[key]
+	p := e.declPkg[key]
+	if fd == nil || p == nil {
+		return nil
+	}
+	fo, _ := p.TypesInfo.Defs[fd.Name].(*types.Func)
+	return fo
+}
